@@ -8,28 +8,42 @@ Open Scope Z_scope.
 Lemma forallb_impl {A} (f g : A -> bool) l : (forall x, f x = true -> g x = true) -> forallb f l = true -> forallb g l = true.
 Proof. intros H. induction l as [|x r IH]; simpl; auto. intros E. apply andb_true_iff in E as [E1 E2]. rewrite (H _ E1). auto. Qed.
 
-(** an accepted schedule loads under every hash id, provided that parsability does not depend
-    on the hash id (validation parses with the empty id, the scheduler with the JobConfig's
-    key) and that the configured default time zone parses *)
+(** an accepted schedule loads under the JobConfig's own key: validation parses every
+    expression with that key too (and with the empty id); the configured default time zone
+    must parse *)
+Lemma parses_for_hash o hash e : nonempty_s hash = true -> parses_for o hash e = true -> or_parse o hash e = true.
+Proof. unfold parses_for. intros Hh H. apply andb_true_iff in H as [_ H]. rewrite Hh in H. exact H. Qed.
+
 Lemma accepted_loadable o hash s :
-  (forall e h, or_parse o "" e = true -> or_parse o h e = true) ->
+  nonempty_s hash = true ->
   or_tz o (or_default_tz o) = true ->
-  valid_sched o s = true -> loadable o hash s = true.
+  valid_sched o hash s = true -> loadable o hash s = true.
 Proof.
-  intros Hp Htz. unfold valid_sched, loadable. destruct s as [s|]; auto.
+  intros Hh Htz. unfold valid_sched, loadable. destruct s as [s|]; auto.
   destruct (as_cron s) as [[[e es] tz]|]; [|intros H; discriminate H].
   intros Hv. destruct (as_disabled s); auto. unfold valid_cron in Hv.
   apply andb_true_iff in Hv as [Hv Htzv]. apply andb_true_iff in Hv as [Hv Hes]. apply andb_true_iff in Hv as [Hn He].
   apply andb_true_iff. split.
   - unfold get_expressions. destruct (nonempty_s e) eqn:Ee.
-    + simpl. rewrite andb_true_r. simpl in He. now apply Hp.
-    + eapply forallb_impl; [|exact Hes]. intros x. apply Hp.
+    + simpl. rewrite andb_true_r. simpl in He. now apply parses_for_hash.
+    + eapply forallb_impl; [|exact Hes]. intros x. now apply parses_for_hash.
   - destruct (nonempty_s tz); auto.
 Qed.
 
-Lemma valid_jc_parts o jc : valid_jc o jc = true ->
+(** before the repair (finding F18) validation tried the empty hash id only; the real parser
+    accepts "H(0-0)/2 * * * *" with some ids and rejects it with others, so an accepted JobConfig
+    could fail to load.  In the model: an oracle with such an expression, old rule vs. loading. *)
+Definition f18_oracle : oracles :=
+  mkOr (fun h e => String.eqb e "H(0-0)/2 * * * *" && String.eqb h "") (fun tz => String.eqb tz "UTC") "UTC".
+Lemma f18_witness :
+  or_parse f18_oracle "" "H(0-0)/2 * * * *" = true /\
+  loadable f18_oracle "ns/jc" (Some (mkAS (Some ("H(0-0)/2 * * * *", [], "")) false)) = false /\
+  valid_sched f18_oracle "ns/jc" (Some (mkAS (Some ("H(0-0)/2 * * * *", [], "")) false)) = false.
+Proof. vm_compute. repeat split; reflexivity. Qed.
+
+Lemma valid_jc_parts o hash jc : valid_jc o hash jc = true ->
   (String.length (ac_name jc) <= 49)%nat /\ valid_tmpl (ac_tmpl jc) = true /\
-  valid_conc (ac_policy jc) (ac_maxc jc) = true /\ valid_sched o (ac_sched jc) = true /\
+  valid_conc (ac_policy jc) (ac_maxc jc) = true /\ valid_sched o hash (ac_sched jc) = true /\
   valid_options (ac_opts jc) = true.
 Proof.
   unfold valid_jc. intros H.
@@ -38,10 +52,10 @@ Proof.
 Qed.
 
 Theorem jc_accepted_loadable o hash jc :
-  (forall e h, or_parse o "" e = true -> or_parse o h e = true) ->
+  nonempty_s hash = true ->
   or_tz o (or_default_tz o) = true ->
-  valid_jc o jc = true -> loadable o hash (ac_sched jc) = true.
-Proof. intros Hp Htz Hv. apply accepted_loadable; auto. now destruct (valid_jc_parts _ _ Hv) as (_ & _ & _ & H & _). Qed.
+  valid_jc o hash jc = true -> loadable o hash (ac_sched jc) = true.
+Proof. intros Hh Htz Hv. apply accepted_loadable; auto. now destruct (valid_jc_parts _ _ _ Hv) as (_ & _ & _ & H & _). Qed.
 
 (** accepted options always have renderable defaults: NewJobFromJobConfig cannot fail *)
 Lemma valid_option_default oe : valid_option oe = true -> exists s, eval_default (fst oe) = Ok s.
@@ -61,9 +75,9 @@ Proof.
   rewrite Hs, Hm. eauto.
 Qed.
 
-Theorem jc_accepted_instantiable o jc :
-  valid_jc o jc = true -> exists m, default_subs (map fst (ac_opts jc)) = Some m.
-Proof. intros Hv. destruct (valid_jc_parts _ _ Hv) as (_ & _ & _ & _ & H). now apply (valid_options_defaults _ []). Qed.
+Theorem jc_accepted_instantiable o hash jc :
+  valid_jc o hash jc = true -> exists m, default_subs (map fst (ac_opts jc)) = Some m.
+Proof. intros Hv. destruct (valid_jc_parts _ _ _ Hv) as (_ & _ & _ & _ & H). now apply (valid_options_defaults _ []). Qed.
 
 (** accepted option names are distinct *)
 Lemma valid_options_nodup opts : forall seen, valid_options_seen seen opts = true ->
